@@ -7,7 +7,7 @@ CONSTANTS
   ModelFeeds <- c_Feeds
   XVals <- c_X
   QVals = {0, 50}
-  DVals = {0, 10000}
+  DVals = {0, 1000}
   Ops = {"load", "react", "adiabatic", "warm"}
 VIEW view
 CONSTRAINT Depth
